@@ -3,6 +3,7 @@ package props
 import (
 	"testing"
 
+	"gorgonia.org/tensor"
 	"pgregory.net/rapid"
 )
 
@@ -99,12 +100,26 @@ func TestC06(t *testing.T) {
 	for _, op := range arithOps {
 		op := op
 		cell(t, "C06", "EW", op+"/mismatch-shape", nCases(20, 400), func(rt *rapid.T) Case {
-			d := rapid.SampledFrom(numDTs).Draw(rt, "dt")
+			d := rapid.SampledFrom(append(append([]DT{}, numDTs...), dtF64, dtF32, dtF64, dtF32)).Draw(rt, "dt")
 			c := genArithCase(rt, "C06", op, d, "TT", rapid.SampledFrom([]string{"pkg", "method"}).Draw(rt, "via"), "safe", c06LayoutKinds)
 			if op == "MinBetween" || op == "MaxBetween" {
 				c.Via = "pkg"
 			}
 			shape := mismatchedShape(rt, c.A.Shape)
+			// another shape with as many elements: the same dimensions in reverse
+			if len(c.A.Shape) >= 2 && rapid.IntRange(0, 2).Draw(rt, "samesize") == 0 {
+				rev := make([]int, len(c.A.Shape))
+				for i, dd := range c.A.Shape {
+					rev[len(rev)-1-i] = dd
+				}
+				if !tensor.Shape(rev).Eq(tensor.Shape(c.A.Shape)) {
+					shape = rev
+				}
+			}
+			// the specialised engines refuse what the standard engine refuses
+			if (d.Name == "float64" || d.Name == "float32") && (op == "Add" || op == "Sub" || op == "Mul" || op == "Div") && rapid.Bool().Draw(rt, "eng") {
+				c.Engine = map[string]string{"float64": "f64", "float32": "f32"}[d.Name]
+			}
 			b := genOpnd(rt, shape, "contig", -3, 9, 0, "b2")
 			c.B = &b
 			return c
